@@ -40,6 +40,7 @@ type Engine struct {
 	Tier        int
 	ReverseMaps bool
 	LazySlices  bool
+	PathTimeout time.Duration
 	// ReplayModel != nil: every fresh symbol takes its value from this model
 	// (concrete re-execution of a counterexample in the interpreter)
 	ReplayModel       map[string]uint64
@@ -119,7 +120,7 @@ func Load(repoDir string, patterns []string, overlay map[string][]byte, tags str
 		MaxDepth: 120, MaxSteps: 4_000_000, MaxArray: 1 << 17, MaxIte: 512, LoopBound: 300, MaxLen: 64,
 		SolverKind: "z3", TimeoutMs: 10000, Workers: 8, MaxPaths: 200000,
 		SkipInit:   map[string]bool{},
-		LazySlices: true, SamplesPerHarness: 2,
+		LazySlices: true, SamplesPerHarness: 2, PathTimeout: 120 * time.Second,
 		intrinsics: map[string]intrinsicFn{},
 		opaquePkgs: map[string]string{},
 	}
@@ -406,6 +407,7 @@ func (e *Engine) runPath(wk *worker, fn *ssa.Function, prefix []int, wantSample 
 		loopBound: e.LoopBound, maxLen: e.MaxLen,
 		tmpDefined: map[string]bool{}, allocSeen: map[string]bool{},
 		funcsSeen: map[string]bool{},
+		started:   time.Now(),
 	}
 	in.fs = newFSModel(in)
 	res = in.res
